@@ -62,17 +62,41 @@ def run(tier, seed):
         render(env, src, d)
         if d != before:
             viol.append({"id": "data-mutated", "witness": "mutates:tag", "source": src, "got": "render data changed"})
-    # history independence
+    # history independence: the reference output of each template comes from a FRESH PROCESS
+    # (a fresh Environment in this process would share module-level memo tables)
+    import json
+    import subprocess
+    import sys
+    prog = ("import json,sys\nsys.path[:0]=json.loads(sys.argv[1])\nfrom bounded.C17 import render, data, HISTORY\nfrom liquid import Environment\nfrom liquid.extra import add_tags_and_filters\n"
+            "e=Environment(); add_tags_and_filters(e); print(json.dumps(render(e, HISTORY[int(sys.argv[2])], data())))")
+    wants = {}
+    for i, b in enumerate(HISTORY):
+        p = subprocess.run([sys.executable, "-c", prog, json.dumps(sys.path), str(i)], capture_output=True, text=True)
+        wants[b] = json.loads(p.stdout) if p.returncode == 0 else f"reference failed: {p.stderr[-200:]}"
     for a, b in itertools.permutations(HISTORY, 2):
         cases += 1
-        fresh = Environment()
-        add_tags_and_filters(fresh)
-        want = render(fresh, b, data())
+        want = wants[b]
         shared = env
         render(shared, a, data())
         got = render(shared, b, data())
         if got != want:
             viol.append({"id": "history-dependent", "witness": "history:" + b[:24], "source": f"{a}  THEN  {b}", "got": f"{got!r} (fresh process: {want!r})"})
+    # cached templates: a request's globals must not survive into the next request
+    import asyncio
+    from liquid import CachingDictLoader
+    for mode in ("sync", "async"):
+        cenv = Environment(loader=CachingDictLoader({"t": "[{{ g }}]"}))
+        def get(globs):
+            if mode == "sync":
+                return cenv.get_template("t", globals=globs).render()
+            async def go():
+                t = await cenv.get_template_async("t", globals=globs)
+                return await t.render_async()
+            return asyncio.run(go())
+        cases += 1
+        seq = [get({"g": "first"}), get(None), get({"g": "third"}), get({})]
+        if seq != ["[first]", "[]", "[third]", "[]"]:
+            viol.append({"id": "history-dependent", "witness": f"cached-template-globals:{mode}", "source": "get_template('t', globals=...) x4 through a caching loader", "got": repr(seq)})
     return {"bound": f"{len(SUBJECTS)} data shapes x {len(ARRAY_FILTERS)} array filters (data deep-compared, rendered twice); all ordered pairs of {len(HISTORY)} history-sensitive templates", "cases": cases, "distinct": cases, "violations": viol, "sample": {"source": HISTORY[0] + " THEN " + HISTORY[1]}}
 
 
